@@ -321,7 +321,7 @@ Proof.
     assert (Hw' : wf g') by (unfold wf, g'; cbn [N ptr st]; repeat split; auto; lia).
     split; [|split; [|split; [|repeat split; auto]]].
     + split; [exact Hw'|]. split; [exact Hu'|]. split; [exact Hnd|]. intros Hnf. reflexivity.
-    + rewrite (rvalid_full _ d sh rws' eq_refl). cbn [Resize.all_cons Resize.rg Resize.rcons Resize.rstrict N g'].
+    + match goal with |- Resize.rvalid _ ?x = true => rewrite (rvalid_full x d sh rws' eq_refl) end. cbn [Resize.all_cons Resize.rg Resize.rcons Resize.rstrict N g'].
       unfold valid in Hv'. cbn [sdat scons sstrict] in Hv'. rewrite <- Hv'. apply ioc_shape. cbn [tshape]. congruence.
     + unfold no_alias0 in *. cbn [Resize.rg Resize.rcons st g']. rewrite Es in Hna. exact Hna.
     + intros Hnf. exfalso. apply Hnf. unfold full. rewrite Es. exact I.
